@@ -54,6 +54,9 @@ def realise(ctx, org, k):
         x = {"nest_pass": "pass", "nest_fail": "fail", "nest_error": "error", "nest_pending": "pending"}.get(o, "undef")
         ctx.execute_steps((u"Given nosub %s %d %d" if x == "undef" else u"Given sub %s %d %d") % (x, sid, pos))
         return
+    if o == "skip_fail":
+        sc.skip("S")
+        assert False, "M"
     if o == "fail": assert False, "M"
     if o == "error": raise RuntimeError("X")
     if o == "pending": raise StepNotImplementedError("P")
